@@ -17,10 +17,10 @@ PERMS = {
     "rw_a_i_b": [("rw", ["a*"]), ("i", ["*b"])],
     "x_mid": [("x", ["i"])],
     "rwix_all": [("rwix", ["*"])],
-    # kinds strings with a repeated letter / a letter that is not a kind (it counts as read): still exactly the kinds named
+    # kinds strings with a repeated letter: still exactly the kinds named (a letter that is no kind is outside the
+    # documented format: the node stores such a list in another spelling, which the reference would have to guess)
     "rr_a_ww_mid": [("rr", ["a*"]), ("ww", ["mid"])],
     "rwr_a_ii_b": [("rwr", ["a*"]), ("ii", ["*b"])],
-    "ro_all": [("ro", ["*"])],
 }
 EXTRA_KEYS = ["$connections", "$admin", "d", "nd", "n1", "$$user_u2", "$$permission_$u2"]
 VALS = ["v0", "7", "w1", "w2", "rv", "pwn", "tok", "ut", "t2", "t3"]
